@@ -1,3 +1,5 @@
+//go:build !no_policy
+
 package main
 
 import (
